@@ -7,9 +7,18 @@
 From Coq Require Import Reals ZArith Lra Lia Bool List PrimFloat.
 From Flocq Require Import Zaux Raux Generic_fmt Round_NE.
 From PR Require Import Base.ZX Base.Num Base.RNum Base.F64 Base.Slice Model.Partition Model.Blockwise Model.Gradient
-     Proofs.C09_newton Proofs.C09_scan Proofs.C09_kernels Proofs.C09_blocks Proofs.C09_main.
+     Gen.GenC09 Proofs.C09_newton Proofs.C09_scan Proofs.C09_kernels Proofs.C09_blocks Proofs.C09_main Proofs.C09_gen.
 Import ListNotations.
 Open Scope R_scope.
+
+(* the three kernels of the model are the functions `nn`, `bil`, `indices_xy` of _gradient_search.pyx as they stand in the
+   current tree (Gen/GenC09.v is regenerated from the source text on every run), for every arithmetic *)
+Theorem C09_kernels_are_the_source : forall (T : Type) (OP : ops T) (data : Z -> Z -> T) l0 p0 dl dp lmax pmax,
+  gen_nn OP data l0 p0 dl dp lmax pmax = nn_kern OP data lmax pmax l0 p0 dl dp /\
+  gen_bil OP data l0 p0 dl dp lmax pmax = bil_kern OP data lmax pmax l0 p0 dl dp /\
+  gen_indices_xy OP data l0 p0 dl dp lmax pmax = idx_kern OP l0 p0 dl dp.
+Proof. intros. split; [apply gen_nn_eq | split; [apply gen_bil_eq | apply gen_indices_xy_eq]]. Qed.
+Print Assumptions C09_kernels_are_the_source.
 
 (* [exactL], [exactP] really are the position: the affine map takes them back to the point *)
 Theorem C09_exact_position_is_inverse : forall x0 y0 a b c e, c * b - e * a <> 0 -> forall tx ty,
